@@ -176,7 +176,11 @@ def serialize_schema(dataframe_schema):
         "columns": columns,
         "checks": checks,
         "index": index,
-        "dtype": dataframe_schema.dtype,
+        "dtype": (
+            None
+            if dataframe_schema.dtype is None
+            else str(dataframe_schema.dtype)
+        ),
         "coerce": dataframe_schema.coerce,
         "strict": dataframe_schema.strict,
         "name": dataframe_schema.name,
